@@ -7,6 +7,8 @@
    Clause 1 = [obj_roundtrip] (line records) / [obj_roundtrip_bytes] (bytes); clause 2 = [obj_load_save_faces]
    (line records) / [obj_load_save_bytes] (bytes).  The text layer between bytes and line records is
    Formats/ObjText.v ([obj_text_*] theorems below); number text (strconv) is a parameter with stated hypotheses.
+   Through the file system (obj.Save / SaveAll / Load, .mtl libraries): [obj_save_load_files] (clause 1) and
+   [obj_load_save_load_files] (clause 2), Formats/ObjFiles.v.
 
    C05 — OBJ write/read round trip and load/save.  Statements only; proofs live in Formats/ObjProofs.v.
 
@@ -17,7 +19,7 @@
    direct, table-free meaning of a line list: it never de-duplicates and never counts ranges.
    [mat_written] is what the writer does to a material name (nil -> DefaultDiffuse, spaces removed). *)
 From Coq Require Import String.
-From PF Require Import Base.Bytes Formats.Obj Formats.ObjProofs Formats.ObjText Formats.ObjTextProofs.
+From PF Require Import Base.Bytes Formats.Obj Formats.ObjProofs Formats.ObjText Formats.ObjTextProofs Formats.ObjFiles Formats.ObjFilesProofs.
 Open Scope nat_scope.
 
 (* Clause 1: writing ANY list of well-formed triangle meshes (any number of meshes, each with or without
@@ -144,6 +146,78 @@ Example obj_example :
   | Ok ls => valid ls = true /\ length ls = 38 /\
              match read ls with
              | Ok (gs, libs) => map obs gs = map obs_written ms /\ libs = ["m.mtl"%string]
+             | _ => False
+             end
+  | _ => False
+  end.
+Proof. vm_compute. repeat split; reflexivity. Qed.
+
+(* ------------------------------------------------------------------------------------------------------------
+   The file level (round 4; Formats/ObjFiles.v = fs.go Load / Save / SaveAll + the material names a .mtl defines).
+   [save_all ms] = (OBJ text, files written next to it); [load fs ls] = ReadMesh, then every material range gets the
+   material of its name from the libraries named by mtllib ([fs]: file name -> newmtl names), or nil.
+   ------------------------------------------------------------------------------------------------------------ *)
+(* Clause 1 through the file system: obj.SaveAll (obj.Save = the case of one unnamed mesh) followed by obj.Load gives
+   one group per mesh with the same corners in order and, on every triangle, the material of the written name - the
+   .mtl written next to the .obj defines every name the usemtl lines use. *)
+Theorem obj_save_load_files : forall ms, wf_list ms = true ->
+  exists ls gs, fst (save_all ms) = Ok ls /\ load (snd (save_all ms)) ls = Ok gs /\ map obs gs = map obs_written ms.
+Proof. exact save_load. Qed.
+Print Assumptions obj_save_load_files.
+
+(* what obj.Load returns for any valid triangulated OBJ whose libraries exist: the direct meaning of the text, a face
+   keeping its material name exactly when some library defines it; and the result can be saved *)
+Theorem obj_load_meaning : forall file fs defs, valid file = true -> load_defs fs (lib_names file) = Ok defs ->
+  exists gs, load fs file = Ok gs /\ map obs gs = map (gobs_resolved defs) (file_groups file) /\ wf_list gs = true.
+Proof. exact load_meaning. Qed.
+Print Assumptions obj_load_meaning.
+
+(* Clause 2 through the file system: Load, SaveAll, Load again - no face lost, invented or reordered, whatever the
+   libraries define ([gfaces] = group name and corner contents, i.e. the observation without the materials) *)
+Theorem obj_load_save_load_files : forall file fs defs, valid file = true -> load_defs fs (lib_names file) = Ok defs ->
+  exists gs1 ls gs2,
+    load fs file = Ok gs1 /\ fst (save_all gs1) = Ok ls /\ load (snd (save_all gs1)) ls = Ok gs2 /\
+    map gfaces (map obs gs1) = map gfaces (file_groups file) /\
+    map gfaces (map obs gs2) = map gfaces (file_groups file) /\
+    map obs gs2 = map gobs_written (map (gobs_resolved defs) (file_groups file)).
+Proof.
+  intros file fs defs V D. destruct (load_save_load file fs defs V D) as (gs1 & ls & gs2 & L1 & O1 & S & L2 & O2).
+  exists gs1, ls, gs2. repeat split; auto.
+  - rewrite O1, map_map. apply map_ext. intros g. apply gfaces_resolved.
+  - rewrite O2, !map_map. apply map_ext. intros g. now rewrite gfaces_written, gfaces_resolved.
+Qed.
+Print Assumptions obj_load_save_load_files.
+
+(* a library that does not exist is a declared error (nothing is returned, nothing can be lost silently) *)
+Theorem obj_load_missing_library : forall file fs, valid file = true -> load_defs fs (lib_names file) = Declared ->
+  load fs file = Declared.
+Proof. exact load_missing_library. Qed.
+Print Assumptions obj_load_missing_library.
+
+(* recorded behaviour, allowed by the property (no face is lost): a usemtl name that no library defines loads as the
+   nil material and is therefore saved as DefaultDiffuse; witness: red undefined, blue defined *)
+Theorem obj_load_undefined_material_becomes_default :
+  valid file_undefined_material = true /\
+  (exists gs, load [("a.mtl"%string, [["blue"%string]])] file_undefined_material = Ok gs /\
+     map (fun g => tri_mats (m_mats g)) gs = [[None; Some ["blue"%string]]] /\
+     exists ls gs2, fst (save_all gs) = Ok ls /\ load (snd (save_all gs)) ls = Ok gs2 /\
+       map (fun g => tri_mats (m_mats g)) gs2 = [[Some ["DefaultDiffuse"%string]; Some ["blue"%string]]]) /\
+  load [] file_undefined_material = Declared.
+Proof. exact undefined_material_becomes_default. Qed.
+Print Assumptions obj_load_undefined_material_becomes_default.
+
+(* non-vacuity of the file-level theorems: two named meshes, one with ranges red / nil / "my mat"; the hypotheses hold
+   and Load of what SaveAll wrote is computed *)
+Example obj_files_example :
+  let p3 : list vec3 := [(0, 0, 0); (1065353216, 0, 0); (0, 1065353216, 0)]%N in
+  let ms := [ {| m_name := ["a"%string]; m_idx := [0; 1; 2; 2; 1; 0; 1; 2; 0]; m_pos := p3; m_uv := []; m_nrm := p3;
+                 m_mats := [(1, Some ["red"%string]); (1, None); (1, Some ["my"%string; "mat"%string])] |};
+              {| m_name := ["b"%string]; m_idx := [0; 2; 1]; m_pos := p3; m_uv := []; m_nrm := []; m_mats := [] |} ] in
+  wf_list ms = true /\
+  snd (save_all ms) = [(mtl_file, [["red"%string]; ["DefaultDiffuse"%string]; ["mymat"%string]])] /\
+  match fst (save_all ms) with
+  | Ok ls => match load (snd (save_all ms)) ls with
+             | Ok gs => map obs gs = map obs_written ms
              | _ => False
              end
   | _ => False
